@@ -104,10 +104,29 @@ def model_line(case, exact=True):
     return "comp.run %s %s %s %s %s" % (flags, case["listeners"] or "-", trs, zs, enc_events(case["events"]))
 
 
+def canon_log(case, out):
+    """inexact grids only: the waiting time is measured as a difference of float clock readings (task.Clock /
+    loop.time() add floats), so a delay equal to max_retry_delay can read as max*(1+2^-52); such readings are
+    snapped to the maximum (a relative allowance of 1e-12, nothing else is touched)"""
+    if out["exact"]:
+        return out["log"]
+    log = []
+    for x in out["log"]:
+        if x.startswith("a"):
+            i, w = x[1:].split("@")
+            mx = Fraction(case["transports"][int(i)]["max_delay"])
+            n, d = w.split("/")
+            wf = Fraction(int(n), int(d))
+            if mx < wf <= mx * (1 + Fraction(1, 10 ** 12)):
+                x = "a%s@%s" % (i, q(mx))
+        log.append(x)
+    return log
+
+
 def judge_line(case, out):
     trs = ";".join("%d,%s" % (t["max_retries"], q(t["max_delay"])) for t in case["transports"])
     return "comp.judge %s 1 %s %d %s" % (case["listeners"] or "-", trs, 1 if out["idle"] else 0,
-                                         ",".join(out["log"]) or "-")
+                                         ",".join(canon_log(case, out)) or "-")
 
 
 def parse_fields(line):
@@ -126,6 +145,18 @@ DYADIC = [  # (initial, growth, max)
 NONDYADIC = [(1.5, 1.5, 300.0, 0.1), (0.1, 1.1, 60.0, 0.1), (1.0, 1.7, 3.0, 0.05)]
 ZS = [(-1, 1), (-1, 2), (0, 1), (1, 2), (1, 1), (2, 1)]
 LISTENERS = ["cjrld", "", "jl", "crd", "r", "cjrld", "cjrld"]
+
+
+S_, D_, X_ = ["start"], ["delay"], ["stop"]
+WITNESSES = [  # (expected key, max_retries per transport, main, events)  == theorems *_fails_* / *_continues / *_reconnects
+    ("giveup:no-main:budget-not-reset-after-join", [1], False,
+     [S_, ["out", "refused", 0], D_, ["out", "jlost", 0], D_]),
+    ("round-robin:no-main:budget-not-reset-after-join", [0, -1], False,
+     [S_, ["out", "jlost", 0], ["out", "refused", 0], D_]),
+    ("polarity:main-raised-not-error", [1, 1], True, [S_, ["out", "mraise", 0]]),
+    ("stop:attempt-after-stop:connecting", [1], False, [S_, X_, ["out", "refused", 0], D_]),
+    ("stop:attempt-after-stop:joined-then-lost", [1], False, [S_, ["out", "joined", 0], X_, ["sess", "lost", 0], D_]),
+]
 
 
 def gen_transports(rng, n, grid=None, mr=None):
@@ -180,6 +211,12 @@ def gen_cases(ctx):
                 c["real_random"] = real_random
             cases.append(c)
 
+    # (w) the witnesses of the negated clauses in Proofs/C14.lean (same inputs as the Lean theorems)
+    def T1(mr):
+        return {"kind": "websocket", "max_retries": mr, "initial": 1.0, "growth": 2.0, "jitter": 0, "max_delay": 8.0}
+    for name, trs, main, evs in WITNESSES:
+        add([T1(m) for m in trs], main, "none", "cjrld", evs, tag="witness:" + name)
+
     # (a) exhaustive: every outcome sequence of length <= L over a few configurations, every stop position
     L = 2 if quick else 3
     base_cfgs = [
@@ -229,7 +266,7 @@ def gen_cases(ctx):
                             add(trs, main, cl, "cjrld", with_stop(evs, p), tag="exh-stop")
 
     # (b) random: scripts of up to 8 outcomes over random configurations, stop at each position
-    nrand = 260 if quick else 4200
+    nrand = 800 if quick else 4200
     for _ in range(nrand):
         n = rng.choice([1, 1, 2, 2, 3])
         main = rng.random() < 0.5
@@ -252,7 +289,7 @@ def gen_cases(ctx):
             add(trs, main, cl, ls, with_stop(evs, p), zs, tag="rand-stop")
 
     # (c) non-dyadic grids with the real random.normalvariate: delays compared with the maximum only
-    for i in range(40 if quick else 600):
+    for i in range(100 if quick else 600):
         n = rng.choice([1, 2, 3])
         ini, g, mx, j = rng.choice(NONDYADIC)
         trs = gen_transports(rng, n, (ini, g, mx))
@@ -475,6 +512,18 @@ def run(ctx):
                                               "impl_log": o["log"], "model_log": m["O"]})
             nbreak += 1
     res.count("correspondence-diffs", nbreak)
+    if not ctx.replay_path:
+        # the Lean witnesses must reproduce on the real code, on both frameworks
+        for c, o, v in zip(cases, outs, verdicts):
+            if c["tag"].startswith("witness:"):
+                want = c["tag"][len("witness:"):]
+                got = set()
+                for f in ([] if v["F"] == "-" else v["F"].split(",")):
+                    spec, _, pos = f.partition(":")
+                    got.add(classify(c, o, spec, pos))
+                res.count("witness-reproduced" if want in got else "witness-NOT-reproduced")
+                if want not in got:
+                    res.notes.append("witness %s (%s) did not reproduce on the real code: %s" % (want, c["fw"], sorted(got)))
     for key, (size, c, o, detail) in sorted(best.items()):
         res.violations.append(core.Violation(
             key, WHAT.get(key, key) + " [spec clause %s rejects observation #%s of the log recorded on the real %s "
